@@ -38,6 +38,15 @@ impl<'a, T> DoubleEndedIter<'a, T> {
     }
 }
 
+/// Follows `step` from `node` and returns the last node of the chain.
+fn chain_end<T>(arena: &Arena<T>, node: NodeId, step: fn(&Node<T>) -> Option<NodeId>) -> NodeId {
+    let mut end = node;
+    while let Some(next) = step(&arena[end]) {
+        end = next;
+    }
+    end
+}
+
 macro_rules! new_iterator {
     ($(#[$attr:meta])* $name:ident, inner = $inner:ident, new = $new:expr $(,)?) => {
         $(#[$attr])*
@@ -169,7 +178,10 @@ new_iterator!(
             .unwrap()
             .parent
             .and_then(|parent_id| arena.get(parent_id))
-            .and_then(|parent| parent.first_child);
+            .and_then(|parent| parent.first_child)
+            // A parentless node has no parent to ask for the end of its
+            // sibling chain: walk to it.
+            .unwrap_or_else(|| chain_end(arena, node, |n| n.previous_sibling));
 
         DoubleEndedIter::new(arena, node, first)
     },
@@ -186,7 +198,10 @@ new_iterator!(
             .unwrap()
             .parent
             .and_then(|parent_id| arena.get(parent_id))
-            .and_then(|parent| parent.last_child);
+            .and_then(|parent| parent.last_child)
+            // A parentless node has no parent to ask for the end of its
+            // sibling chain: walk to it.
+            .unwrap_or_else(|| chain_end(arena, node, |n| n.next_sibling));
 
         DoubleEndedIter::new(arena, node, last)
     },
